@@ -35,5 +35,11 @@ CHECKS = {
   text="Every sequence of <= 6 (7) heading levels, every sequence of <= 3 (4) symbols over a 16-symbol alphabet (headings, paragraphs, headings inside quote/list/note/nested directives, includes with heading-offset), and every include offset after every short prefix is rendered by the real DocutilsRenderer; section parents, paragraph placement, skip warnings (count and line), rubric levels and the renderer's own _level_to_section key set must equal a 15-line stack machine. A BFS over the 64 canonical open-level sets x 6 levels runs to a fixpoint, covering unbounded sequences under the stated abstraction.",
   note="Trusted: the stack-machine model; pre-transform doctree; Sphinx `only` not generated; lines of warnings raised inside included files are counted, not compared (C04 owns lines).",
  ),
+ "C10": dict(
+  category="model_checking",
+  technique="bounded exhaustive enumeration of heading-title sequences x levels x anchor depths x slug functions, executed through the docutils pipeline; GitHub-rule slug model and the myst-anchors CLI as two independent references; every slug re-resolved through a '#slug' link",
+  text="Every sequence of <= 3 (4) titles from an 18-title pool built to collide (equal base slugs, titles equal to suffixed forms, skipped inline tokens), also nested in quotes/list items, every level assignment for short sequences x heading_anchors 0..3, the H1..H6 document x heading_anchors 0..7 and five custom slug functions are rendered; slugs must equal the documented rule with first-free suffixing, equal the ids printed by myst_parser.cli.print_anchors, be pairwise distinct, and each [](#slug) must resolve to the heading carrying it; a raising slug function yields one warning per heading.",
+  note="Trusted: the 3-line slug model; myst-anchors CLI = print_anchors in-process; titles with leading/trailing blanks are only compared with the CLI (known finding: '-a' vs 'a'); docutils front end.",
+ ),
 }
 NOT_APPLICABLE = {}
